@@ -184,15 +184,22 @@ def cached(cfg, mods, with_dep=True):
                 return pickle.load(fh)
         except Exception:
             pass
-    expanded = {}
-    res = check_crate(cfg, mods, with_dep, expanded)
-    res = res + (expanded,)
-    os.makedirs(runner.CACHE, exist_ok=True)
-    import threading
-    tmp = key + '.tmp%d.%d' % (os.getpid(), threading.get_ident())
-    with gzip.open(tmp, 'wb') as fh:
-        pickle.dump(res, fh)
-    os.replace(tmp, key)
+    with runner.lock(os.path.basename(key)):
+        if os.path.exists(key):     # built meanwhile by a check running side by side
+            try:
+                with gzip.open(key, 'rb') as fh:
+                    return pickle.load(fh)
+            except Exception:
+                pass
+        expanded = {}
+        res = check_crate(cfg, mods, with_dep, expanded)
+        res = res + (expanded,)
+        os.makedirs(runner.CACHE, exist_ok=True)
+        import threading
+        tmp = key + '.tmp%d.%d' % (os.getpid(), threading.get_ident())
+        with gzip.open(tmp, 'wb') as fh:
+            pickle.dump(res, fh)
+        os.replace(tmp, key)
     return res
 
 
